@@ -141,6 +141,18 @@ def make_file(rng, spec):
         nbytes = 1
         dec = expand(codes, coding)
         raw = codes
+    if spec.get("plant"):
+        # bytes chosen by the test at given offsets of the data section (they are sample data like any other)
+        buf = bytearray(data)
+        for off, blob in spec["plant"]:
+            if off + len(blob) <= len(buf):
+                buf[off:off + len(blob)] = bytes(blob)
+        data = bytes(buf)
+        if coding == "pcm":
+            dec = x = np.frombuffer(data, dtype="<i2" if order == "01" else ">i2").reshape(n, c).astype(np.int16)
+        else:
+            raw = codes = np.frombuffer(data, dtype=np.uint8).reshape(n, c)
+            dec = expand(codes, coding)
     extra = ()
     if spec.get("extra"):
         extra = ("database_id -s5 VERIF", "speaker_id -s3 abc", "sample_sig_bits -i 16")[: spec["extra"]]
@@ -202,8 +214,25 @@ def run_case(case, rec, mon=None):
                         f = _ShortReads(blob, int(rng.choice([5000, 8191, 16383, 20001])))
                         info["access"] = "stream_short_reads"
                         rec.count("streams_with_short_reads")
+                    elif case["idx"] % 3 == 2:
+                        # real files that are not opened from a path: from a descriptor (its .name is an integer), or an unnamed
+                        # temporary file
+                        if case["idx"] % 2:
+                            p = os.path.join(d, "fd.sph")
+                            open(p, "wb").write(blob)
+                            f = open(os.open(p, os.O_RDONLY), "rb")
+                            info["access"] = "stream_from_descriptor"
+                        else:
+                            f = tempfile.TemporaryFile()
+                            f.write(blob)
+                            f.seek(0)
+                            info["access"] = "stream_temporary_file"
+                        rec.count("streams_that_are_real_files_without_a_path_name")
                     mon.register(f, expected=want, warn=warn, info=info)
-                    U.read_signal(f, dtype=dt, force_as="sph")
+                    try:
+                        U.read_signal(f, dtype=dt, force_as="sph")
+                    finally:
+                        f.close()
             except Exception:
                 pass
             rec.sample(info)
@@ -255,8 +284,12 @@ def run_case(case, rec, mon=None):
                 "wrong_magic": b"NIST_1B" + good[7:],
                 "magic_only_1023": good[:1023],
             }
-            for name, blob in bads.items():
+            for k, (name, blob) in enumerate(bads.items()):
                 f = io.BytesIO(blob)
+                if (k + case["idx"]) % 3 == 0:
+                    f = tempfile.TemporaryFile()  # (a real file whose .name is not a path)
+                    f.write(blob)
+                    f.seek(0)
                 mon.register(f, raises=IOError, info=dict(malformed=name, coding="pcm", nchan=1, nsamp=10, nbytes=2, truncated=False))
                 try:
                     U.read_signal(f, force_as="sph")
@@ -329,6 +362,20 @@ def run_shard(spec, rec):
     try:
         for i in range(spec["a"], spec["b"]):
             run_case({"kind": "file", "idx": i, "seed": spec["seed"], "spec": make_spec(spec["seed"], i)}, rec, mon)
+            if i % 60 == 7:
+                # directed: data that happens to spell the magic number of an embedded shorten stream ("ajkg", then a version byte) exactly
+                # where a 16 KiB read starts - of an uncompressed file it is sample data like any other - and one byte off as a control
+                rng = rng_for(spec["seed"], "C12", i, 5)
+                c = int(rng.choice([1, 2, 4, 8]))
+                coding = str(rng.choice(["pcm", "ulaw", "alaw"]))
+                b = 2 if coding == "pcm" else 1
+                per = 16384 // (c * b)
+                ver = [0, 1, 2, 3, 255][(i // 60) % 5]
+                plant = [(16384 * k, list(b"ajkg") + [ver, 0, 1, 2]) for k in ((1, 2) if i % 120 == 7 else (2,))] + [(16384 * 3 + 1, list(b"ajkg") + [2])]
+                sp = dict(nchan=c, nsamp=3 * per + int(rng.integers(8, 200)), coding=coding, order=str(rng.choice(["01", "10"])), hdrsize=1024, extra=0,
+                          access=["path", "stream", "path_force"][(i // 60) % 3], style="noise", dtype=None, plant=plant)
+                run_case({"kind": "file", "idx": 3 * 10 ** 6 + 3 * i, "seed": spec["seed"], "spec": sp}, rec, mon)
+                rec.count("files_whose_data_spells_the_shorten_magic_at_a_read_boundary")
         if spec["a"] == 0:
             run_case({"kind": "tables", "idx": 0, "seed": spec["seed"]}, rec, mon)
         run_case({"kind": "malformed", "idx": spec["a"], "seed": spec["seed"]}, rec, mon)
